@@ -341,6 +341,69 @@ def _job_entry(args):
                 "job": job}
 
 
+HARD_SIGNALS = {4: "SIGILL", 6: "SIGABRT", 7: "SIGBUS", 8: "SIGFPE", 11: "SIGSEGV"}
+
+
+def _job_child(conn, a):
+    try:
+        conn.send(_job_entry(a))
+    finally:
+        conn.close()
+
+
+def run_jobs(args, nproc, deadline):
+    """One forked process per job, at most `nproc` at a time. -> list of result dicts (same order as args).
+
+    A job whose process dies without a result gives {"crashed": exitcode, "job": ...}; jobs still running or not
+    started when `deadline` (time.time() value) passes give {"timeout": True, "job": ...} and are killed. A pool
+    that silently waits for a dead worker, or a check that never ends, is worse than no verdict."""
+    from multiprocessing.connection import wait
+
+    ctx = multiprocessing.get_context("fork")
+    pending = list(enumerate(args))
+    running = {}
+    results = {}
+    while pending or running:
+        while pending and len(running) < nproc:
+            idx, a = pending.pop(0)
+            rx, tx = ctx.Pipe(duplex=False)
+            p = ctx.Process(target=_job_child, args=(tx, a))
+            p.start()
+            tx.close()
+            running[idx] = (p, rx, a)
+        wait([rx for _p, rx, _a in running.values()] + [p.sentinel for p, _rx, _a in running.values()], timeout=2.0)
+        for idx, (p, rx, a) in list(running.items()):
+            res = None
+            if rx.poll():
+                try:
+                    res = rx.recv()
+                except (EOFError, OSError):
+                    res = None
+                p.join(30)
+                if p.is_alive():
+                    p.kill()
+                    p.join()
+                if res is None:
+                    res = {"crashed": p.exitcode, "job": a[1]}
+            elif not p.is_alive():
+                p.join()
+                res = {"crashed": p.exitcode, "job": a[1]}
+            if res is not None:
+                rx.close()
+                results[idx] = res
+                del running[idx]
+        if time.time() > deadline:
+            for idx, (p, rx, a) in running.items():
+                p.kill()
+                p.join()
+                rx.close()
+                results[idx] = {"timeout": True, "job": a[1]}
+            for idx, a in pending:
+                results[idx] = {"timeout": True, "job": a[1], "not_started": True}
+            running, pending = {}, []
+    return [results[i] for i in range(len(args))]
+
+
 def assert_tree():
     import pptx
 
@@ -392,12 +455,37 @@ def main_check(prop, modname, tier, seed, replay_path=None):
     jobs = mod.jobs(tier)
     args = [(modname, job, seed * 1009 + i, tier, known) for i, job in enumerate(jobs)]
     nproc = min(NPROC, max(1, len(args)))
-    if nproc == 1 or os.environ.get("VERIF_SERIAL"):
+    budget = float(os.environ.get("VERIF_WALL_BUDGET_S", "2700" if tier == "quick" else "10800"))
+    if os.environ.get("VERIF_SERIAL"):
         results = [_job_entry(a) for a in args]
     else:
-        ctx = multiprocessing.get_context("fork")
-        with ctx.Pool(nproc, maxtasksperchild=getattr(mod, "MAXTASKS", None)) as pool:
-            results = list(pool.imap_unordered(_job_entry, args, chunksize=1))
+        results = run_jobs(args, nproc, t0 + budget)
+        # jobs whose interpreter died: once more, few at a time (rules out memory pressure from 15 neighbours),
+        # all of them within ten more minutes
+        crashed = [i for i, r in enumerate(results) if "crashed" in r]
+        retry = run_jobs([args[i] for i in crashed], min(4, nproc), time.time() + 600) if crashed else []
+        for i, again in zip(crashed, retry):
+            if True:
+                if "crashed" in again and -(again["crashed"] or 0) in HARD_SIGNALS:
+                    sig = HARD_SIGNALS[-again["crashed"]]
+                    rec = Rec().dump()
+                    rec.update(job=args[i][1], wall=0.0, failures=[{
+                        "key": "%s:interpreter-died:%s" % (prop, sig),
+                        "message": "the interpreter running job %r (seed %d) was killed by %s twice, the second time "
+                                   "with at most three neighbours; python-pptx code on the tree under test takes the process down"
+                                   % (args[i][1], args[i][2], sig),
+                        "case": {"__job__": args[i][1], "seed": args[i][2], "tier": tier}}])
+                    results[i] = rec
+                else:
+                    results[i] = again
+    lost = [r for r in results if "crashed" in r or "timeout" in r]
+    results = [r for r in results if not ("crashed" in r or "timeout" in r)]
+    for r in lost[:5]:
+        print("no result from job %r: %s" % (r["job"], "wall-clock budget of %d s exceeded" % budget
+                                              if "timeout" in r else "process exit code %r" % r["crashed"]))
+    if lost and not any(r.get("failures") for r in results) and not violations:
+        print("inconclusive: %d job(s) gave no result and the others found nothing; no verdict" % len(lost))
+        return 2
     results.sort(key=lambda r: json.dumps(r.get("job"), sort_keys=True, default=str))
     herr = [r for r in results if "harness_error" in r]
     if herr:
@@ -480,6 +568,7 @@ def main_check(prop, modname, tier, seed, replay_path=None):
         "replayed_regressions": replayed,
         "known_findings_hit": dict(known_seen),
         "jobs": len(jobs),
+        "jobs_without_result": len(lost),
         "slowest_jobs_s": [[round(r["wall"], 1), r["job"]] for r in sorted(results, key=lambda r: -r["wall"])[:3]],
         "exhaustive": bool(getattr(mod, "EXHAUSTIVE", False)),
     }
@@ -505,12 +594,22 @@ def main_check(prop, modname, tier, seed, replay_path=None):
         print(l)
     print("%s tier=%s seed=%d evaluations=%d distinct_nontrivial=%d violations=%d known_hit=%d wall=%.1fs"
           % (prop, tier, seed, evals, len(nt) + nt_count, len(new_paths), sum(known_seen.values()), wall))
+    if lost:
+        print("note: %d job(s) gave no result; the violations above come from the jobs that finished" % len(lost))
     return 1 if new_paths else 0
 
 
 def _replay_case(mod, data):
     """Re-execute a saved case through the check's plain executor; returns failures."""
     case = data["case"] if isinstance(data, dict) and "case" in data else data
+    if isinstance(case, dict) and "__job__" in case:
+        # a whole job whose interpreter died: run it again in a process of its own
+        known = dict(load_known().get(mod.PROPERTY, {}))
+        r = run_jobs([(mod.__name__, case["__job__"], case["seed"], case["tier"], known)], 1, time.time() + 3600)[0]
+        if "crashed" in r and -(r["crashed"] or 0) in HARD_SIGNALS:
+            return [{"key": "%s:interpreter-died:%s" % (mod.PROPERTY, HARD_SIGNALS[-r["crashed"]]),
+                     "message": "job %r killed by signal" % (case["__job__"],), "case": case}]
+        return list(r.get("failures") or [])
     fails = mod.replay(from_jsonable(case)) or []
     return fails
 
